@@ -104,6 +104,10 @@ impl SignedAnnounce {
 }
 
 fn system_time() -> u64 {
+    #[cfg(mainline_verif)]
+    if true {
+        return crate::verif::system_time_micros();
+    }
     SystemTime::now()
         .duration_since(SystemTime::UNIX_EPOCH)
         .expect("time drift")
